@@ -247,7 +247,7 @@ class Check:
             self.oblige(extra["name"], rc == 0, out[-1500:] if rc else "")
 
     # ---------------------------------------------------------------- engines
-    def run_engine(self, eng, tier, seed, focus=None, tag=""):
+    def run_engine(self, eng, tier, seed, focus=None, tag="", max_s=None):
         """Run one harness engine and the model on the same cases; return report dict."""
         name = eng["name"]
         odir = os.path.join(self.out, name + tag)
@@ -257,7 +257,13 @@ class Check:
         if focus:
             cmd += ["--focus", focus]
         cmd += eng.get("args", [])
-        rc, out, dt = sh(cmd, cwd=VERIF, timeout=eng.get("timeout", 3000))
+        tmo = eng.get("timeout", 3000)
+        if max_s is not None:
+            tmo = max(5, min(tmo, max_s))
+        rc, out, dt = sh(cmd, cwd=VERIF, timeout=tmo)
+        if rc == 124 and max_s is not None:
+            # a search round cut off by the search box: not an obligation, just no result
+            return {"engine": name, "tier": tier, "seed": seed, "harness_s": round(dt, 2), "rc": rc, "cut_by_search_box": True}
         rep = {"engine": name, "tier": tier, "seed": seed, "harness_s": round(dt, 2), "rc": rc}
         meta_p = os.path.join(odir, name + ".meta.json")
         hang_p = os.path.join(odir, name + ".hang")
@@ -367,7 +373,10 @@ class Check:
             for eng in self.cfg.get("engines", []):
                 if not self.harness_ok and not eng.get("bin"):
                     continue
-                rep = self.run_engine(eng, "thorough" if k > 1 else self.tier, self.seed + 7919 * k, focus=focus, tag=f".search{k}")
+                left = t_end - time.time()
+                if left < 5:
+                    break
+                rep = self.run_engine(eng, "thorough" if k > 1 else self.tier, self.seed + 7919 * k, focus=focus, tag=f".search{k}", max_s=left)
                 rep["search_round"] = k
                 self.engine_reports.append(rep)
                 meta = rep.get("meta") or {}
